@@ -33,6 +33,9 @@ def gen_int_transform(rng):
         return [k] + unit_axis(rng) + [90 * rng.randint(-4, 4)]
     if k == 'matrix':
         r = rng.random()
+        if r < 0.3:
+            return [k, structured_matrix(rng, lambda: rng.randint(-2, 2))]
+        r = rng.random()
         if r < 0.5:      # affine with small entries
             m = [rng.randint(-2, 2) for _ in range(12)] + [0, 0, 0, 1]
         elif r < 0.8:    # arbitrary sixteen numbers (projective row included)
@@ -56,6 +59,38 @@ def gen_int_transform(rng):
     up[rng.choice(other)] = rng.choice([1, -1, 2, -3])
     up[ax] = rng.randint(-2, 2)
     return [k, eye, interest, up]
+
+
+def structured_matrix(rng, val):
+    """sixteen numbers with structure a reader might key on: the transpose of an affine matrix (last column
+    0 0 0 1, translation in the bottom row), projective bottom rows, zero and repeated rows, signed
+    permutations, rank one, diagonal, w-scaled affine"""
+    aff = [val() for _ in range(12)] + [0, 0, 0, 1]
+    kind = rng.randrange(8)
+    if kind == 0:        # transpose of an affine matrix
+        return [aff[4 * j + i] for i in range(4) for j in range(4)]
+    if kind == 1:        # identity block, last column 0 0 0 1, translation written in the bottom row
+        return [1, 0, 0, 0, 0, 1, 0, 0, 0, 0, 1, 0, val(), val(), val(), 1]
+    if kind == 2:        # projective bottom row over an affine top
+        return aff[:12] + [val(), val(), val(), rng.choice([1, 1, 2, 0, -1])]
+    if kind == 3:        # a zero row or a repeated row
+        m = [val() for _ in range(16)]
+        i, j = rng.randrange(4), rng.randrange(4)
+        m[4 * i:4 * i + 4] = [0, 0, 0, 0] if rng.random() < 0.5 or i == j else m[4 * j:4 * j + 4]
+        return m
+    if kind == 4:        # signed permutation of all four coordinates
+        p = [0, 1, 2, 3]
+        rng.shuffle(p)
+        m = [0] * 16
+        for i in range(4):
+            m[4 * i + p[i]] = rng.choice([1, -1])
+        return m
+    if kind == 5:        # rank one
+        a, b = [val() for _ in range(4)], [val() for _ in range(4)]
+        return [x * y for x in a for y in b]
+    if kind == 6:        # diagonal, w scaled
+        return [val(), 0, 0, 0, 0, val(), 0, 0, 0, 0, val(), 0, 0, 0, 0, rng.choice([1, 2, -1, 0])]
+    return aff[:12] + [0, 0, 0, rng.choice([2, -1, 0])]      # affine top, w scaled
 
 
 def norm_bound(tr):
@@ -103,7 +138,9 @@ def gen_case(rng, gen_t, exact):
             edits2.append(e)
             m2 = m2 + 1 if e[0] in ('append', 'insert') else max(0, m2 - 1) if e[0] == 'delete' else 0 if e[0] == 'clear' else m2
     case = {'mode': rng.choice(['C', 'L']), 'init': init, 'edits': edits, 'edits2': edits2, 'form': rng.randrange(6),
-            'save_via': rng.choice(['node', 'doc']), 'nest': rng.choice([0, 0, 1, 2]), 'exact': exact}
+            'save_via': rng.choice(['node', 'doc']), 'nest': rng.choice([0, 0, 1, 2]), 'exact': exact,
+            # a save that fails inside a child of the node (then repaired and repeated), in round 1 or 2
+            'fault': rng.choice([0, 0, 0, 1, 2])}
     return case
 
 
@@ -161,6 +198,8 @@ def gen_float_transform(rng, tame=False):
                           float(rng.choice([30, 45, 60, 90, 120, 180, 270, -90, -30, -180, 0, 360, 1e-3]))])
         return [k] + [x / n for x in v] + [ang]
     if k == 'matrix':
+        if rng.random() < 0.4:
+            return [k, [float(x) for x in structured_matrix(rng, val)]]
         return [k, [val() for _ in range(16)]]
     while True:
         # every scale: the distance between eye and interest and the length of up range over twenty decades
@@ -215,7 +254,7 @@ def gen_float_case(rng):
         # one transform alone, wide magnitudes
         t = gen_float_transform(rng)
         return {'mode': rng.choice(['C', 'L']), 'init': [t], 'edits': [], 'edits2': [], 'form': rng.randrange(6),
-                'save_via': 'node', 'nest': 0, 'exact': False}
+                'save_via': 'node', 'nest': 0, 'exact': False, 'fault': 0}
     return gen_case(rng, lambda r: gen_float_transform(r, tame=True), False)
 
 
@@ -381,6 +420,7 @@ def run(ctx):
     kinds, modes, seen = {}, {}, set()
     nests = {}
     twice = 0
+    faulted = 0
     edited = 0
     for c in cases:
         for t in c['init']:
@@ -388,6 +428,7 @@ def run(ctx):
         modes[c['mode']] = modes.get(c['mode'], 0) + 1
         edited += 1 if c['edits'] else 0
         twice += 1 if c.get('edits2') else 0
+        faulted += 1 if c.get('fault') else 0
         nests[str(c.get('nest', 0))] = nests.get(str(c.get('nest', 0)), 0) + 1
         if len(c['init']) + len(c['edits']) >= 2 or (c['init'] and c['init'][0][0] in ('rotate', 'lookat', 'matrix')):
             seen.add(core.canon_hash([c['mode'], c['init'], c['edits'], c.get('edits2')]))
@@ -405,7 +446,7 @@ def run(ctx):
                 'distinct = different (mode, transforms, edits)',
         'samples': [{'mode': c['mode'], 'init': c['init'], 'edits': c['edits'], 'observed': r['obs']}
                     for c, r in ex_cases[len(corpus_cases()):len(corpus_cases()) + 3]],
-        'distribution': {'transforms_by_kind': kinds, 'constructed_vs_loaded': modes, 'cases_with_edit_history': edited, 'cases_with_a_second_edit_history_after_the_first_save': twice,
+        'distribution': {'transforms_by_kind': kinds, 'constructed_vs_loaded': modes, 'cases_with_edit_history': edited, 'cases_with_a_failed_save_repaired_and_repeated': faulted, 'cases_with_a_second_edit_history_after_the_first_save': twice,
                          'node_is_root_child_librarynode': nests,
                          'integer_exact_cases': len(exact), 'float_cases': len(floats),
                          'integer_cases_rejected_by_magnitude_bound': rejected},
